@@ -46,7 +46,8 @@ def on_verdict_factory(chk, pid, monitors):
                                                           "cfg": t["cfg"], "faults": t["faults"]}, replay)
         if v["rej"] and not bad:
             ev = t["evs"][v["rej"] - 1]
-            chk.deviation({"cfg": t["cfg"], "faults": t["faults"], "order": t["order"], "step": v["rej"], "event": ev["ev"],
+            chk.deviation({"cfg": t["cfg"], "faults": t["faults"], "order": t["order"], "rng_seed": t.get("rng_seed"),
+                           "silence_from": t.get("silence_from"), "step": v["rej"], "event": ev["ev"],
                            "i": ev["i"], "exc": ev["exc"], "post_state": {k: ev["st"][k] for k in ("now", "c", "s", "tx", "cOut")}})
         if not v["rej"] and not v["viol"] and not t["hang"]:
             chk.traces_validated += 1
